@@ -110,7 +110,10 @@ Record fsg_case := {
   f_operating : list N;         (* in the order given to the function *)
   f_size : Z; f_quorum : Z;
   f_seed : Z;                   (* keys the wallet's shares hold: sorted seed + operating member *)
-  f_out : fsg_res }.
+  f_out : fsg_res;
+  f_conv : list N }.            (* observed: the real signing converter over those keys maps the
+                                   party key seed + m of every m of f_operating (in the given
+                                   order) to this member index (TssPartyIDToMemberIndex) *)
 
 (* what registerSigner passes: the operating members of a group of f_size < 256 selected seats
    (distinct, within 1..size), at least the quorum of them, a non-negative seed *)
@@ -144,10 +147,17 @@ Definition spec_fsg (c : fsg_case) : bool :=
                   | Some a, Some b => N.eqb a b | _, _ => false end
            | None => false
            end) (f_operating c)
+      (* the REAL converter maps every member's key-generation identity to its stored index,
+         whatever the magnitude of the keys (digit counts, word sizes) *)
+      && list_eqb N.eqb (f_conv c)
+           (map (fun m => match map_get m idx with Some fi => fi | None => 0 end) (f_operating c))
   | _ => false
   end.
 Definition agree_fsg (c : fsg_case) : bool :=
-  fsg_eqb (f_out c) (final_signing_group (f_selected c) (f_operating c) (f_size c) (f_quorum c)).
+  fsg_eqb (f_out c) (final_signing_group (f_selected c) (f_operating c) (f_size c) (f_quorum c))
+  && list_eqb N.eqb (f_conv c)
+       (map (fun m => sc_index (wallet_keys (f_seed c) (f_operating c)) (party_key (f_seed c) m))
+            (f_operating c)).
 
 (* --- converter + NewSignature + signing admission probes *)
 Record conv_case := {
@@ -174,7 +184,14 @@ Definition spec_conv (c : conv_case) : bool :=
                       || match snd io with
                          | Some k => N.eqb (sc_index (v_keys c) k) (fst io)
                          | None => false
-                         end) (combine (v_idx c) (v_idx_out c))).
+                         end) (combine (v_idx c) (v_idx_out c)))
+  (* a party key of the wallet maps to an index that holds this very key: never to 0, never to
+     another member, for keys of ANY magnitude (first occurrence when keys repeat) *)
+  && Nat.eqb (length (v_key c)) (length (v_key_out c))
+  && (negb (N.ltb n 256) ||
+      forallb (fun ko => negb (memZ (fst ko) (v_keys c))
+                         || optZ_eqb (sc_key (v_keys c) (snd ko)) (Some (fst ko)))
+              (combine (v_key c) (v_key_out c))).
 Definition agree_conv (c : conv_case) : bool :=
   list_eqb optZ_eqb (v_idx_out c) (map (sc_key (v_keys c)) (v_idx c))
   && list_eqb N.eqb (v_key_out c) (map (sc_index (v_keys c)) (v_key c))
@@ -185,7 +202,8 @@ Record sprobe_case := {
   sp_size : N; sp_t : Z; sp_self : N; sp_keys : list Z; sp_dq : list N; sp_ops : list N;
   sp_session : N; sp_msgs : list (N * msg);
   so_operating : list N; so_own : option Z; so_keys : option (list Z);  (* None = panic *)
-  so_history : list (list N); so_received : list (list N); so_can : list bool }.
+  so_history : list (list N); so_received : list (list N); so_can : list bool;
+  so_index : list N }.   (* the real TssPartyIDToMemberIndex of every key of so_keys ([] on panic) *)
 Definition s_kinds : list N := [0; 1; 2; 3; 4; 5; 6; 7; 8; 9].
 Definition s_states : list N := [0; 1; 2; 3; 4; 5; 6; 7; 8; 9; 10; 11].
 Definition sprobe_member (c : sprobe_case) : member :=
@@ -210,7 +228,15 @@ Definition spec_sprobe (c : sprobe_case) : bool :=
      && nodupb rk && sublistN rk hk && subsetN hk rk) s_kinds
   (* admitted senders always have a party key when the wallet is well formed (no panic) *)
   && (negb (N.leb (sp_size c) (N.of_nat (length (sp_keys c))))
-      || match so_keys c with Some _ => true | None => false end).
+      || match so_keys c with Some _ => true | None => false end)
+  (* every party id the member built maps back to an index holding that key *)
+  && (negb (N.ltb (N.of_nat (length (sp_keys c))) 256)
+      || match so_keys c with
+         | Some l => Nat.eqb (length l) (length (so_index c))
+                     && forallb (fun ki => optZ_eqb (sc_key (sp_keys c) (snd ki)) (Some (fst ki)))
+                                (combine l (so_index c))
+         | None => true
+         end).
 Definition agree_sprobe (c : sprobe_case) : bool :=
   let mb := sprobe_member c in
   let h := fold_left (fun h sm => s_receive mb (fst sm) h (snd sm)) (sp_msgs c) [] in
@@ -222,7 +248,9 @@ Definition agree_sprobe (c : sprobe_case) : bool :=
       | None => true end)
   && list_eqb (list_eqb N.eqb) (so_history c) (map (fun k => senders (all_received h k)) s_kinds)
   && list_eqb (list_eqb N.eqb) (so_received c) (map (fun k => senders (received h k)) s_kinds)
-  && list_eqb Bool.eqb (so_can c) (map (s_can_transition mb h) s_states).
+  && list_eqb Bool.eqb (so_can c) (map (s_can_transition mb h) s_states)
+  && list_eqb N.eqb (so_index c)
+       (match so_keys c with Some l => map (sc_index (sp_keys c)) l | None => [] end).
 
 (* --- a real signing run of one subset of a wallet's final signing group *)
 Record sign_obs := { sg_member : N;            (* final signing group index *)
